@@ -573,7 +573,7 @@ func (fr *Frame) exec(in ssa.Instruction) {
 	case *ssa.Select:
 		fr.env[x] = fr.selectStmt(x)
 	case *ssa.MakeChan:
-		o := s.newObj(x.Type(), &OpaqueV{Kind: "chan"}, "makechan", true)
+		o := s.newObj(x.Type(), &OpaqueV{Kind: "chan", T: toIndex(fr.get(x.Size), x.Size.Type())}, "makechan", true)
 		fr.env[x] = &ChanV{Nil: False, Obj: o}
 	case *ssa.Range:
 		fr.env[x] = fr.rangeStart(x)
